@@ -175,7 +175,8 @@ def _run_given(clause, ctx, seed, n, out):
         if "v" not in last or not (isinstance(e, (Violation, StopShrink)) or last.get("stopped")):
             raise
         v = last["v"]
-        out["failures"].append({"bucket": v.bucket, "detail": v.detail, "case": last["case"]})
+        prefix = [c for c in ctx.recent if c is not last["case"]]
+        out["failures"].append({"bucket": v.bucket, "detail": v.detail, "case": last["case"], "prefix": prefix})
 
 
 def _run_stateful(clause, ctx, seed, n, steps, out):
@@ -198,7 +199,8 @@ def _run_stateful(clause, ctx, seed, n, steps, out):
         if "v" not in last or not (isinstance(e, (Violation, StopShrink)) or last.get("stopped")):
             raise
         v = last["v"]
-        out["failures"].append({"bucket": v.bucket, "detail": v.detail, "case": last["case"]})
+        prefix = [c for c in ctx.recent if c is not last["case"]]
+        out["failures"].append({"bucket": v.bucket, "detail": v.detail, "case": last["case"], "prefix": prefix})
 
 
 # ------------------------------------------------------------------------------------------
@@ -211,6 +213,13 @@ def replay_file(prop: Property, path: str, known):
     if clause is None or clause.check is None:
         raise HarnessError(f"replay {path}: clause {rec.get('clause')} has no plain check function")
     ctx = Ctx(prop.pid, clause.name, known=known)
+    for pc in rec.get("prefix") or []:
+        # history-dependent failure: the cases that ran before it in the same process are part of the reproduction
+        try:
+            ctx.begin(pc)
+            clause.check(pc, ctx)
+        except Violation:
+            pass
     ctx.begin(rec["case"])
     try:
         clause.check(rec["case"], ctx)
@@ -222,13 +231,29 @@ def replay_file(prop: Property, path: str, known):
     return "ok", None, None, ctx
 
 
-def write_replay(pid, clause, bucket, detail, case):
+def write_replay(pid, clause, bucket, detail, case, prefix=None, prop=None, known=None):
     d = os.path.join(HERE, "replays", pid)
     os.makedirs(d, exist_ok=True)
     safe = "".join(ch if ch.isalnum() or ch in "-_." else "_" for ch in bucket)[:60]
     path = os.path.join(d, f"{clause}-{safe}-{case_hash(case)[:12]}.json")
-    with open(path, "w") as f:
-        json.dump({"property": pid, "clause": clause, "bucket": bucket, "detail": detail, "case": case}, f, indent=1, default=repr)
+    rec = {"property": pid, "clause": clause, "bucket": bucket, "detail": detail, "case": case}
+
+    def dump():
+        with open(path, "w") as f:
+            json.dump(rec, f, indent=1, default=repr)
+
+    dump()
+    if prefix and prop is not None:
+        # does the shrunk case reproduce on its own (in this process, which has not run the shard)?  If not, the failure depends
+        # on what ran before it in the worker: keep those cases in the replay file.
+        try:
+            status = replay_file(prop, path, known or {})[0]
+        except BaseException:  # noqa: BLE001
+            status = "error"
+        if status == "ok":
+            rec["prefix"] = prefix
+            rec["note"] = "history-dependent: the case alone passes in a fresh process; 'prefix' holds the cases that ran before it in the failing worker"
+            dump()
     return path
 
 
@@ -372,7 +397,7 @@ def main(argv=None):
                 for f in res["failures"]:
                     if f["bucket"] not in reported:
                         reported.add(f["bucket"])
-                        path = write_replay(pid, res["clause"], f["bucket"], f["detail"], f["case"])
+                        path = write_replay(pid, res["clause"], f["bucket"], f["detail"], f["case"], f.get("prefix"), prop, known)
                         violations.append((f["bucket"], path, f["detail"], res["clause"]))
                 if res["failures"]:
                     t = next(t for t in pending if t["clause"] == res["clause"] and t["shard"] == res["shard"])
